@@ -354,6 +354,11 @@ class Exec:
                     return [Res(s, VInt(-v.t))]
                 if isinstance(v, VFl):
                     return [Res(s, VFl(v.fl.neg(), v.pytype))]
+            if isinstance(n.op, ast.Invert):
+                from . import npmodel
+
+                if npmodel.is_arr(s, v) and s.heap[v.oid].dtype == "bool":
+                    return npmodel.call(self, s, "bitwise_not", [v], {})
             raise Unsupported(f"unary {type(n.op).__name__} on {v!r}")
 
         return self.bind(self.ev(st, n.operand), f)
